@@ -186,6 +186,18 @@ func genAges(c *ctx, emit func(ev)) {
 	}
 }
 
+// rotIssuer: a deployment's Issuer whose key is rotated at run time
+type rotIssuer struct {
+	iss []*type1.BasicPrivateIssuer
+	cur int
+}
+
+func (r *rotIssuer) Evaluate(req tokens.TokenRequest) ([]byte, error) {
+	return batchIssuer1{r.iss[r.cur]}.Evaluate(req)
+}
+func (r *rotIssuer) TokenKeyID() []byte { return r.iss[r.cur].TokenKeyID() }
+func (r *rotIssuer) Type() uint16       { return r.iss[r.cur].Type() }
+
 func ageScalar(c *ctx, sid, j int, what string) []byte {
 	return p384Scalar(c.seed, fmt.Sprintf("ages-%s-%d-%d", what, sid, j))
 }
@@ -289,8 +301,21 @@ func newAgeWorld(c *ctx, kind string, sid, n int, retain bool) *ageWorld {
 			if !good {
 				name = fmt.Sprintf("u-%d-%d.example", sid, j)
 			} else if !again {
-				sk, _ := rawKey(elliptic.P384(), ik)
-				t3.issuer.AddOriginWithIndexKey(name, sk)
+				if j%4 == 3 { // the issuer draws the index key itself (read back for the reference)
+					if err := t3.issuer.AddOrigin(name); err != nil {
+						return false, fmt.Errorf("harness: AddOrigin: %v", err)
+					}
+				} else {
+					sk, _ := rawKey(elliptic.P384(), ik)
+					t3.issuer.AddOriginWithIndexKey(name, sk)
+				}
+			}
+			if good && j%4 == 3 {
+				k := t3.issuer.OriginIndexKey(name)
+				if k == nil {
+					return false, fmt.Errorf("OriginIndexKey of an origin registered with AddOrigin is nil")
+				}
+				ik = k.D.FillBytes(make([]byte, 48))
 			}
 			blind := ageScalar(c, sid, 2*j+map[bool]int{false: 0, true: 1}[again], "blind")
 			st, err := client.CreateTokenRequest(hb(j, "chal", 9), hb(j, "nonce", 32), blind, t3.issuer.TokenKeyID(), t3.issuer.TokenKey(), name, t3.issuer.NameKey())
@@ -612,6 +637,205 @@ func newAgeWorld(c *ctx, kind string, sid, n int, retain bool) *ageWorld {
 			}
 			return all, nil
 		}
+	case kind == "batchrot":
+		// RECONFIGURATION: ONE batch issuer over an adapter whose key is rotated between batches (the Issuer interface is
+		// the deployment's own type: which key it serves now is its business). Honest: requests for the key the adapter
+		// serves now are answered; refused: a request for the retired key is absent.
+		ka, kb := p384Key(c.seed, "rot-a"), p384Key(c.seed, "rot-b")
+		for x := 0; type1.NewBasicPrivateIssuer(ka).TokenKeyID()[31] == type1.NewBasicPrivateIssuer(kb).TokenKeyID()[31]; x++ {
+			kb = p384Key(c.seed, fmt.Sprintf("rot-b-%d", x))
+		}
+		keys := []*oprf.PrivateKey{ka, kb}
+		rot := &rotIssuer{iss: []*type1.BasicPrivateIssuer{type1.NewBasicPrivateIssuer(ka), type1.NewBasicPrivateIssuer(kb)}}
+		bi := batched.NewBasicBatchedIssuer(rot)
+		cl := type1.NewBasicPrivateClient()
+		w.present = func(j int, good, again bool) (bool, error) {
+			rot.cur = (j / 3) % 2 // (rotated every third batch)
+			use := rot.cur
+			if !good {
+				use = 1 - rot.cur
+			}
+			iss := rot.iss[use]
+			st, err := cl.CreateTokenRequest(hb(j, "chal", 10), hb(j, "nonce", 32), iss.TokenKeyID(), iss.TokenKey())
+			if err != nil {
+				return false, fmt.Errorf("harness: create: %v", err)
+			}
+			br, err := batched.NewBasicClient().CreateTokenRequest([]tokens.TokenRequestWithDetails{st.Request()})
+			if err != nil {
+				return false, fmt.Errorf("harness: batch: %v", err)
+			}
+			dec := new(batched.BatchedTokenRequest)
+			if !dec.Unmarshal(append([]byte{}, br.Marshal()...)) {
+				return false, fmt.Errorf("harness: batch request does not decode")
+			}
+			resp, err := bi.EvaluateBatch(dec)
+			if err != nil {
+				return false, nil
+			}
+			rs, err := batched.UnmarshalBatchedTokenResponses(append([]byte{}, resp...))
+			if err != nil || len(rs) != 1 {
+				return false, fmt.Errorf("the batch response does not decode into one entry: %v", err)
+			}
+			if len(rs[0]) == 0 {
+				return false, nil
+			}
+			if !good {
+				return true, nil
+			}
+			tok, err := st.FinalizeToken(rs[0])
+			if err != nil || !bytesEq(fullEvaluate(oprf.SuiteP384, keys[use], authInput(tok)), tok.Authenticator) {
+				return true, fmt.Errorf("the entry does not give a sound token (%v)", err)
+			}
+			return true, nil
+		}
+	case kind == "rekey":
+		// RECONFIGURATION: the caller replaces the key object it built an issuer from IN PLACE (*key = *next), as a
+		// deployment that rotates keys through one long-lived variable does. Whether the issuer follows the variable or
+		// keeps the key it was built with is its own business - but it must stay ONE issuer: what it issues now verifies
+		// under it now (types 1, 5), under its TokenKey() (types 2, 3), and its key ID is SHA-256 of its TokenKey().
+		// Refused items: a token of the key the issuer does NOT use now (whichever that is) with a flipped bit.
+		w.present = func(j int, good, again bool) (bool, error) {
+			switch j % 4 {
+			case 0, 1:
+				suite, t := oprf.SuiteP384, 1
+				mk := func(name string) *oprf.PrivateKey { return freshVoprf(oprf.SuiteP384, p384Key(c.seed, fmt.Sprintf("ages-rk-%d-%d-%s", sid, j, name))) }
+				if j%4 == 1 {
+					suite, t = oprf.SuiteRistretto255, 5
+					mk = func(name string) *oprf.PrivateKey { return freshVoprf(oprf.SuiteRistretto255, ristrettoKey(c.seed, fmt.Sprintf("ages-rk-%d-%d-%s", sid, j, name))) }
+				}
+				_ = suite
+				key, next := mk("a"), mk("b")
+				var evaluate func(chal, nonce []byte) (tokens.Token, error)
+				var verify func(tokens.Token) error
+				var keyID func() []byte
+				var pubEnc func() ([]byte, error)
+				if t == 1 {
+					iss := type1.NewBasicPrivateIssuer(key)
+					keyID, verify = iss.TokenKeyID, iss.Verify
+					pubEnc = func() ([]byte, error) { return iss.TokenKey().MarshalBinary() }
+					evaluate = func(chal, nonce []byte) (tokens.Token, error) {
+						st, err := type1.NewBasicPrivateClient().CreateTokenRequest(chal, nonce, iss.TokenKeyID(), iss.TokenKey())
+						if err != nil {
+							return tokens.Token{}, err
+						}
+						resp, err := iss.Evaluate(st.Request())
+						if err != nil {
+							return tokens.Token{}, err
+						}
+						return st.FinalizeToken(resp)
+					}
+				} else {
+					iss := type5.NewBatchedPrivateIssuer(key)
+					keyID, verify = iss.TokenKeyID, iss.Verify
+					pubEnc = func() ([]byte, error) { return iss.TokenKey().MarshalBinary() }
+					evaluate = func(chal, nonce []byte) (tokens.Token, error) {
+						st, err := type5.NewBatchedPrivateClient().CreateTokenRequest(chal, [][]byte{nonce}, iss.TokenKeyID(), iss.TokenKey())
+						if err != nil {
+							return tokens.Token{}, err
+						}
+						resp, err := iss.Evaluate(st.Request())
+						if err != nil {
+							return tokens.Token{}, err
+						}
+						toks, err := st.FinalizeTokens(resp)
+						if err != nil || len(toks) != 1 {
+							return tokens.Token{}, fmt.Errorf("finalize: %v", err)
+						}
+						return toks[0], nil
+					}
+				}
+				round := func(tag string) (tokens.Token, error) {
+					tok, err := evaluate(hb(j, "chal"+tag, 9), hb(j, "nonce"+tag, 32))
+					if err != nil {
+						return tok, fmt.Errorf("issuance %s the key object was replaced fails: %v", tag, err)
+					}
+					if enc, err := pubEnc(); err != nil || !bytes.Equal(keyID(), sha256Sum(enc)) {
+						return tok, fmt.Errorf("%s the key object was replaced the key ID is not SHA-256 of the issuer's TokenKey()", tag)
+					}
+					return tok, nil
+				}
+				tok1, err := round("before")
+				if err != nil {
+					return false, err
+				}
+				if verify(tok1) != nil {
+					return false, nil
+				}
+				*key = *next // the caller's variable now holds the next key
+				tok2, err := round("after")
+				if err != nil {
+					return false, err
+				}
+				if !good {
+					tok2.Authenticator = flipBit(tok2.Authenticator, j)
+					return verify(tok2) == nil, nil
+				}
+				return verify(tok2) == nil, nil
+			default:
+				mkRSA := func(name string) *rsa.PrivateKey {
+					k := *rsaKey(j % 3)
+					if name == "b" {
+						k = *rsaKey((j + 1) % 3)
+					}
+					return &k
+				}
+				key, next := mkRSA("a"), mkRSA("b")
+				var keyID func() []byte
+				var tokenKey func() *rsa.PublicKey
+				var evaluate func(tag string) (tokens.Token, error)
+				if j%4 == 2 {
+					iss := type2.NewBasicPublicIssuer(key)
+					keyID, tokenKey = iss.TokenKeyID, iss.TokenKey
+					evaluate = func(tag string) (tokens.Token, error) {
+						st, err := type2.NewBasicPublicClient().CreateTokenRequest(hb(j, "chal"+tag, 9), hb(j, "nonce"+tag, 32), iss.TokenKeyID(), iss.TokenKey())
+						if err != nil {
+							return tokens.Token{}, err
+						}
+						resp, err := iss.Evaluate(st.Request())
+						if err != nil {
+							return tokens.Token{}, err
+						}
+						return st.FinalizeToken(resp)
+					}
+				} else {
+					iss := type3.NewRateLimitedIssuer(key)
+					iss.AddOrigin("rekey.example")
+					keyID, tokenKey = iss.TokenKeyID, iss.TokenKey
+					secret := p384Scalar(c.seed, "ages-rekey-client")
+					evaluate = func(tag string) (tokens.Token, error) {
+						st, err := type3.NewRateLimitedClientFromSecret(secret).CreateTokenRequest(hb(j, "chal"+tag, 9), hb(j, "nonce"+tag, 32), ageScalar(c, sid, j, "blind"+tag),
+							iss.TokenKeyID(), iss.TokenKey(), "rekey.example", iss.NameKey())
+						if err != nil {
+							return tokens.Token{}, err
+						}
+						resp, _, err := iss.Evaluate(append([]byte{}, st.Request().Marshal()...))
+						if err != nil {
+							return tokens.Token{}, err
+						}
+						return st.FinalizeToken(resp)
+					}
+				}
+				for _, tag := range []string{"before", "after"} {
+					tok, err := evaluate(tag)
+					if err != nil {
+						return false, fmt.Errorf("issuance %s the key object was replaced fails: %v", tag, err)
+					}
+					enc, err := util.MarshalTokenKeyPSSOID(tokenKey())
+					if err != nil || !bytes.Equal(keyID(), sha256Sum(enc)) {
+						return false, fmt.Errorf("%s the key object was replaced the key ID is not SHA-256 of the issuer's TokenKey()", tag)
+					}
+					if !good && tag == "after" {
+						tok.Authenticator = flipBit(tok.Authenticator, j)
+						return verifyPSS(tokenKey(), tok) == nil, nil
+					}
+					if verifyPSS(tokenKey(), tok) != nil {
+						return false, nil
+					}
+					*key = *next
+				}
+				return true, nil
+			}
+		}
 	case kind == "keyid":
 		// ever more issuers over ever more keys; each one's public key encoding and key ID are the reference's when it is
 		// made and whenever it is asked again
@@ -890,6 +1114,60 @@ func newAgeWorld(c *ctx, kind string, sid, n int, retain bool) *ageWorld {
 			}
 			return true, nil
 		}
+	case kind == "t5final":
+		// NEIGHBOURING OBJECTS: two type-5 clients (zero values, as a caller may write them) with requests for two issuer
+		// keys outstanding together; each state finalizes its own response - the one created first after the other was
+		// created - into tokens of its own key; refused: the other issuer's answer to its request
+		ka, kb := ristrettoKey(c.seed, "t5f-a"), ristrettoKey(c.seed, "t5f-b")
+		ia, ib := type5.NewBatchedPrivateIssuer(ka), type5.NewBatchedPrivateIssuer(kb)
+		w.present = func(j int, good, again bool) (bool, error) {
+			clA, clB := type5.BatchedPrivateClient{}, type5.BatchedPrivateClient{}
+			if j%2 == 1 {
+				clB = clA // (or one client for both)
+			}
+			keyA, issA, issB := ka, ia, ib
+			if j%4 >= 2 {
+				keyA, issA, issB = kb, ib, ia
+			}
+			nonces := [][]byte{hb(j, "n1", 32), hb(j, "n2", 32)}
+			stA, err := clA.CreateTokenRequest(hb(j, "chal", 11), nonces, issA.TokenKeyID(), issA.TokenKey())
+			if err != nil {
+				return false, fmt.Errorf("harness: create: %v", err)
+			}
+			stB, err := clB.CreateTokenRequest(hb(j, "chalB", 11), [][]byte{hb(j, "n3", 32)}, issB.TokenKeyID(), issB.TokenKey())
+			if err != nil {
+				return false, fmt.Errorf("harness: create: %v", err)
+			}
+			if !good {
+				foreign, err := issB.Evaluate(&type5.BatchedPrivateTokenRequest{TokenKeyID: issB.TokenKeyID()[31], BlindedReq: stA.Request().BlindedReq})
+				if err != nil {
+					return false, fmt.Errorf("harness: evaluate: %v", err)
+				}
+				_, err = stA.FinalizeTokens(foreign)
+				return err == nil, nil
+			}
+			respA, err := issA.Evaluate(stA.Request())
+			if err != nil {
+				return false, nil
+			}
+			toks, err := stA.FinalizeTokens(respA)
+			if err != nil || len(toks) != 2 {
+				return false, nil
+			}
+			for _, tok := range toks {
+				if !bytes.Equal(fullEvaluate(oprf.SuiteRistretto255, keyA, authInput(tok)), tok.Authenticator) || !bytes.Equal(tok.KeyID, issA.TokenKeyID()) {
+					return true, fmt.Errorf("the token is not a token of the key it names")
+				}
+			}
+			respB, err := issB.Evaluate(stB.Request())
+			if err != nil {
+				return false, nil
+			}
+			if tb, err := stB.FinalizeTokens(respB); err != nil || len(tb) != 1 {
+				return false, nil
+			}
+			return true, nil
+		}
 	case kind == "t1final":
 		// a pool of issuer keys, among them pairs whose key IDs end in the same byte; two requests (for the keys of a
 		// pair) are outstanding together. Honest: each state finalizes its own response into a sound token; refused:
@@ -913,9 +1191,40 @@ func newAgeWorld(c *ctx, kind string, sid, n int, retain bool) *ageWorld {
 			pairs = append(pairs, [2]int{x, x + 1})
 		}
 		cl := type1.NewBasicPrivateClient()
+		pkShared := new(oprf.PublicKey) // ONE public key object of the caller's, re-decoded in place whenever the key changes
+		viaShared := func(k ik, j int, tag string) error {
+			enc, _ := k.iss.TokenKey().MarshalBinary()
+			if err := pkShared.UnmarshalBinary(oprf.SuiteP384, enc); err != nil {
+				return fmt.Errorf("harness: %v", err)
+			}
+			st, err := cl.CreateTokenRequest(hb(j, "chal"+tag, 11), hb(j, "nonce"+tag, 32), k.iss.TokenKeyID(), pkShared)
+			if err != nil {
+				return fmt.Errorf("harness: create: %v", err)
+			}
+			resp, err := k.iss.Evaluate(st.Request())
+			if err != nil {
+				return fmt.Errorf("harness: evaluate: %v", err)
+			}
+			tok, err := st.FinalizeToken(resp)
+			if err != nil {
+				return fmt.Errorf("a request made with the caller's re-decoded key object does not finalize its honest response: %v", err)
+			}
+			if !bytes.Equal(fullEvaluate(oprf.SuiteP384, k.key, authInput(tok)), tok.Authenticator) {
+				return fmt.Errorf("the token of a request made with the caller's re-decoded key object does not verify")
+			}
+			return nil
+		}
 		w.present = func(j int, good, again bool) (bool, error) {
 			p := pairs[j%len(pairs)]
 			a, b := pool[p[j/len(pairs)%2]], pool[p[1-j/len(pairs)%2]]
+			if good { // one complete issuance per key, one after the other, through the shared key object
+				if err := viaShared(a, j, "sa"); err != nil {
+					return false, err
+				}
+				if err := viaShared(b, j, "sb"); err != nil {
+					return false, err
+				}
+			}
 			stA, err := cl.CreateTokenRequest(hb(j, "chal", 11), hb(j, "nonce", 32), a.iss.TokenKeyID(), a.iss.TokenKey())
 			if err != nil {
 				return false, fmt.Errorf("harness: create: %v", err)
